@@ -45,6 +45,7 @@ inductive PAct where
   | change (name : Bytes)
   | wblock               -- `B<k>` / `U`: write back-pressure of the transport (oracle-only ops `loopx`)
   | noIdle               -- `Z`: the server starts / stops refusing `idle` (ghost: nothing happens at the client)
+  | evPause (on : Bool)  -- `P` / `R`: the application stops / resumes polling its event stream (oracle-only ops)
   | bad
 
 def parseAction (s : String) : PAct :=
@@ -109,8 +110,8 @@ def parseAction (s : String) : PAct :=
     | 'c' => match rest.toNat? with | some n => .act (.cancel n) | none => .bad
     | 'B' => match rest.toNat? with | some _ => .wblock | none => .bad
     | 'U' => .wblock
-    | 'P' => .wblock           -- the application pauses / resumes polling its event stream (oracle-only ops)
-    | 'R' => .wblock
+    | 'P' => .evPause true     -- the application pauses / resumes polling its event stream (oracle-only ops)
+    | 'R' => .evPause false
     | 'E' => .act .dropEvents
     | 'x' => .act .dropMain
     | 'e' => .act .eof
@@ -191,6 +192,7 @@ structure Facts where
   evDropped : Bool := false      -- the application dropped its event receiver: no event is observable any more
   afterGreet : Bytes := []       -- bytes delivered in actions AFTER the one that completed the greeting
   wblockSeen : Bool := false     -- write back-pressure occurred: "quiescent client has consumed everything" no longer holds
+  evPaused : Bool := false       -- the application is not polling its event stream (it cannot see its end)
   pwReplyEnd : Option Nat := none
   writes : Bytes := []
 deriving Inhabited
@@ -343,6 +345,7 @@ def handle (toks : List String) (impl : String) : Verdict :=
                    liveReadFault := if f.droppedSeen || f.faulted then f.liveReadFault else some k }
         | .act (.writeFault _) => { f with faulted := true }
         | .wblock => { f with wblockSeen := true }
+        | .evPause on => { f with wblockSeen := true, evPaused := on }
         | .act .dropMain => { f with dropMain := true }
         | .act .dropEvents => { f with evDropped := true }
         | .act (.cancel r) => { f with cancelled := f.cancelled ++ [r] }
@@ -525,6 +528,7 @@ def handle (toks : List String) (impl : String) : Verdict :=
         !f.writes.isEmpty && !(Cmd.isK1 p) && tok (f.writes.takeWhile (· != LF)) != some (str "password", [p])
     let oracle : String :=
       if impl == "PANIC" then "fail:panic"
+      else if impl == "RUNAWAY" then "fail:write-loop-that-does-not-end"
       else if on "C08" && f.closings > 1 then "fail:C08-more-than-one-closing-event"
       else if on "C08" && f.afterEnd then "fail:C08-activity-after-the-end"
       else if on "C05" && honest && !f.sv.violations.isEmpty then "fail:C05-line-written-while-server-idles"
@@ -556,13 +560,13 @@ def handle (toks : List String) (impl : String) : Verdict :=
         else if on "C08" && f.faulted && connectedOk && !f.dropMain && !pendImpl.isEmpty then "fail:C08-request-never-resolved"
         else if on "C08" && malformedDelivered && connectedOk && !f.dropMain && !pendImpl.isEmpty then
           "fail:C08-request-never-resolved-after-invalid-data"
-        else if on "C08" && malformedDelivered && connectedOk && !f.dropMain && !(f.droppedSeen && (f.evend || f.evDropped) && f.closedSeen) then
+        else if on "C08" && malformedDelivered && connectedOk && !f.dropMain && !(f.droppedSeen && (f.evend || f.evDropped || f.evPaused) && f.closedSeen) then
           "fail:C08-not-closed-after-invalid-data"
-        else if on "C08" && f.readEnds && connectedOk && !f.dropMain && !(f.droppedSeen && (f.evend || f.evDropped) && f.closedSeen) then
+        else if on "C08" && f.readEnds && connectedOk && !f.dropMain && !(f.droppedSeen && (f.evend || f.evDropped || f.evPaused) && f.closedSeen) then
           "fail:C08-not-closed-after-fault"
-        else if on "C08" && f.uncleanEof && connectedOk && !f.dropMain && !f.evDropped && f.cancelled.isEmpty && !(containsStr impl "proto:ueof") then
+        else if on "C08" && f.uncleanEof && connectedOk && !f.dropMain && !f.evDropped && !f.evPaused && f.cancelled.isEmpty && !(containsStr impl "proto:ueof") then
           "fail:C08-unclean-end-of-stream-not-surfaced"
-        else if on "C08" && connectedOk && !f.dropMain && !f.evDropped && f.cancelled.isEmpty &&
+        else if on "C08" && connectedOk && !f.dropMain && !f.evDropped && !f.evPaused && f.cancelled.isEmpty &&
             (match f.liveReadFault with | some k => !(containsStr impl s!"proto:io{k}") | none => false) then
           "fail:C08-read-error-not-surfaced"
         else if on "C08" && f.dropMain && connectedOk && !f.faulted && startsWith f.sv.out body && pendImpl.isEmpty &&
